@@ -54,6 +54,7 @@ class Gen:
         self.linkname = False
         self.features = []
         self.cells = []       # sole-reference cells (kind, exported, ptr)
+        self.varcells = []    # package-variable cells
 
     def p(self):
         self.n += 1
@@ -69,7 +70,8 @@ class Gen:
         src = ["package main", ""]
         imports = []
         if self.lib_used:
-            imports.append('"%s/lib"' % self.mod)
+            body = "\n".join(self.decls + self.inits + self.main)
+            imports.append('%s"%s/lib"' % ("" if "lib." in body else "_ ", self.mod))
         if self.linkname:
             imports.append('_ "unsafe"')
         if imports:
@@ -683,6 +685,157 @@ GENERATOR_AUDIT = {
 }
 
 
+# --------------------------------------------------------------------------------------
+# Package-variable cells: multi-variable declarations of every tuple-producing form x which variables are referenced
+# x from where x side-effecting / pure initializer; and chains of single-variable declarations.
+# --------------------------------------------------------------------------------------
+
+VAR_FORMS = ["map-ok", "assert-ok", "recv-ok", "call2", "call3", "parallel"]
+VAR_USES = ["first", "last", "none", "all"]
+VAR_WHERE = ["main", "other-pkg-init", "via-var"]
+VAR_EFFECT = ["pure", "side"]
+CHAIN_VARIANTS = ["plain", "effect-base", "via-func", "via-closure", "via-composite", "via-method", "cross-pkg"]
+CHAIN_WHERE = ["main", "init", "via-var"]
+
+
+def var_cell(g, form, use, where, effect):
+    P = g.p()
+    inlib = where == "other-pkg-init"
+    D = g.lib if inlib else g.decls
+    if inlib:
+        g.lib_used = True
+    q = "lib." if inlib else ""
+
+    def N(x):
+        return ("V%s%s" % (x.upper(), P)) if inlib else "%s%s" % (P, x)
+    tag = "\"%s var %s %s %s %s\"" % (P, form, use, where, effect)
+    side = effect == "side"
+    note = "println(%s, \"init\")\n\t" % tag if side else ""
+    if form == "map-ok":
+        D.append("var %s = map[string]int{\"k\": 7}\n" % N("m"))
+        if side:
+            D.append("func %s() string {\n\t%sreturn \"k\"\n}\n" % (N("key"), note))
+        vs, rhs = [("a", "int"), ("b", "bool")], "%s[%s]" % (N("m"), N("key") + "()" if side else "\"k\"")
+    elif form == "assert-ok":
+        if side:
+            D.append("func %s() interface{} {\n\t%sreturn 42\n}\n" % (N("mk"), note))
+            rhs = "%s().(int)" % N("mk")
+        else:
+            D.append("var %s interface{} = 42\n" % N("i"))
+            rhs = "%s.(int)" % N("i")
+        vs = [("a", "int"), ("b", "bool")]
+    elif form == "recv-ok":
+        D.append("var %s = func() chan int {\n\t%sc := make(chan int, 1)\n\tc <- 9\n\treturn c\n}()\n" % (N("ch"), note))
+        vs, rhs = [("a", "int"), ("b", "bool")], "<-%s" % N("ch")
+    elif form == "call2":
+        D.append("func %s() (int, string) {\n\t%sreturn 3, \"s\"\n}\n" % (N("f"), note))
+        vs, rhs = [("a", "int"), ("b", "string")], "%s()" % N("f")
+    elif form == "call3":
+        D.append("func %s() (int, string, bool) {\n\t%sreturn 4, \"t\", true\n}\n" % (N("f"), note))
+        vs, rhs = [("a", "int"), ("b", "string"), ("c", "bool")], "%s()" % N("f")
+    else:
+        if side:
+            D.append("func %s(v int) int {\n\t%sreturn v\n}\n" % (N("eff"), note))
+            rhs = "%s(11), \"p\"" % N("eff")
+        else:
+            rhs = "11, \"p\""
+        vs = [("a", "int"), ("b", "string")]
+    D.append("var %s = %s\n" % (", ".join(N(v) for v, _ in vs), rhs))
+    used = {"first": vs[:1], "last": vs[-1:], "none": [], "all": vs}[use]
+    if not used:
+        return
+    if where == "via-var":
+        wr = {"int": "%s + 1", "bool": "!%s", "string": "%s + \"!\""}
+        refs = []
+        for v, ty in used:
+            g.decls.append("var %sw%s = %s\n" % (P, v, wr[ty] % N(v)))
+            refs.append("%sw%s" % (P, v))
+        g.main.append("println(%s, %s)" % (tag, ", ".join(refs)))
+    elif inlib:
+        g.inits.append("println(%s, %s)" % (tag, ", ".join(q + N(v) for v, _ in used)))
+    else:
+        g.main.append("println(%s, %s)" % (tag, ", ".join(N(v) for v, _ in used)))
+
+
+def chain_cell(g, variant, where):
+    P = g.p()
+    D = g.decls
+    tag = "\"%s chain %s %s\"" % (P, variant, where)
+    c1 = "%sc1" % P
+    last = "%sc3" % P
+    call = ""
+    # declared in reverse order: initialisation order must follow the dependencies, not the source
+    if variant == "via-closure":
+        D.append("var %sc3 = func() int { return %sc2() - 1 }\n" % (P, P))
+        D.append("var %sc2 = func() int { return %s * 2 }\n" % (P, c1))
+        call = "()"
+    elif variant == "via-composite":
+        D.append("var %sc3 = len(%sc2) + %sc2[0]\n" % (P, P, P))
+        D.append("var %sc2 = []int{%s, %s + 1}\n" % (P, c1, c1))
+    elif variant == "via-func":
+        D.append("var %sc3 = %sc2 - 1\n" % (P, P))
+        D.append("var %sc2 = %sget() * 2\n" % (P, P))
+        D.append("func %sget() int { return %s }\n" % (P, c1))
+    elif variant == "via-method":
+        D.append("var %sc3 = %sc2 - 1\n" % (P, P))
+        D.append("var %sc2 = %sTc{}.get() * 2\n" % (P, P))
+        D.append("type %sTc struct{}\n" % P)
+        D.append("func (%sTc) get() int { return %s }\n" % (P, c1))
+    else:
+        D.append("var %sc3 = %sc2 - 1\n" % (P, P))
+        D.append("var %sc2 = %s * 2\n" % (P, "lib.C1%s" % P if variant == "cross-pkg" else c1))
+    if variant == "cross-pkg":
+        g.lib_used = True
+        g.lib.append("var C1%s = c0%s + 1\n" % (P, P))
+        g.lib.append("var c0%s = 5\n" % P)
+        g.lib.append("var Unused%s = c0%s + 100\n" % (P, P))
+    else:
+        D.append("var %s = %sc0 + 1\n" % (c1, P))
+        if variant == "effect-base":
+            D.append("var %sc0 = func() int {\n\tprintln(%s, \"init\")\n\treturn 5\n}()\n" % (P, tag))
+        else:
+            D.append("var %sc0 = 5\n" % P)
+        D.append("var %sside = %sc0 + 100\n" % (P, P))          # never referenced, pure: eliminated
+    if where == "via-var":
+        D.append("var %sw = %s%s + 1000\n" % (P, last, call))
+        g.main.append("println(%s, %sw)" % (tag, P))
+    elif where == "init":
+        g.inits.append("println(%s, %s%s)" % (tag, last, call))
+    else:
+        g.main.append("println(%s, %s%s)" % (tag, last, call))
+
+
+def f_package_vars(g):
+    rng = g.rng
+    for _ in range(rng.randrange(1, 4)):
+        if rng.random() < 0.25:
+            c = ("chain", rng.choice(CHAIN_VARIANTS), rng.choice(CHAIN_WHERE))
+            chain_cell(g, c[1], c[2])
+        else:
+            c = ("var", rng.choice(VAR_FORMS), rng.choice(VAR_USES), rng.choice(VAR_WHERE), rng.choice(VAR_EFFECT))
+            var_cell(g, *c[1:])
+        g.varcells.append(c)
+
+
+def var_matrix_programs(rng, seed):
+    cells = [("var", f, u, w, e) for f in VAR_FORMS for u in VAR_USES for w in VAR_WHERE for e in VAR_EFFECT]
+    cells += [("chain", v, w) for v in CHAIN_VARIANTS for w in CHAIN_WHERE]
+    rng.shuffle(cells)
+    out = []
+    for a in range(0, len(cells), 12):
+        mod = "gvv%dx%d" % (seed, a // 12)
+        g = Gen(rng, mod)
+        for c in cells[a:a + 12]:
+            if c[0] == "var":
+                var_cell(g, *c[1:])
+            else:
+                chain_cell(g, *c[1:])
+            g.varcells.append(c)
+        g.features.append("package-vars")
+        out.append((mod, g.build(), g.features, g.varcells))
+    return out
+
+
 FEATURES = [
     ("iface-exported", f_iface_exported), ("iface-unexported", f_iface_unexported), ("anon-iface-assert", f_anon_iface),
     ("method-value-expr", f_method_value), ("embedding", f_embedding), ("generic-func", f_generic_func),
@@ -691,6 +844,7 @@ FEATURES = [
     ("named-nonstruct", f_named_nonstruct), ("struct-fields", f_struct_fields), ("init-registry", f_init_registry),
     ("error-panic", f_error_panic), ("defer-go", f_defer_go), ("func-table", f_func_tables), ("signature-spellings", f_signatures),
     ("generic-signature", f_generic_signature), ("sole-reference", f_sole),
+    ("package-vars", f_package_vars),
 ]
 
 
@@ -703,7 +857,7 @@ def gen_program(rng, mod, force=None):
     for name, fn in chosen:
         fn(g)
         g.features.append(name)
-    return g.build(), g.features, g.cells
+    return g.build(), g.features, g.cells + g.varcells
 
 
 # --------------------------------------------------------------------------------------
@@ -918,8 +1072,17 @@ def run_batch(chk, jobs, meta, tier):
         for k, v in (r.get("method_refs") or {}).items():
             mr[k] = mr.get(k, 0) + v
         mat = chk.extra.setdefault("sole_reference_matrix", {k: {"unexp-val": 0, "unexp-ptr": 0, "exp-val": 0, "exp-ptr": 0} for k in SOLE_KINDS})
-        for kind, exported, ptr in cells:
-            mat[kind]["%s-%s" % ("exp" if exported else "unexp", "ptr" if ptr else "val")] += 1
+        vmat = chk.extra.setdefault("package_var_matrix", {f: {} for f in VAR_FORMS})
+        cmat = chk.extra.setdefault("package_var_chain_matrix", {v: {w: 0 for w in CHAIN_WHERE} for v in CHAIN_VARIANTS})
+        for c in cells:
+            if c[0] == "var":
+                key = "used=%s from=%s init=%s" % (c[2], c[3], c[4])
+                vmat[c[1]][key] = vmat[c[1]].get(key, 0) + 1
+            elif c[0] == "chain":
+                cmat[c[1]][c[2]] += 1
+            else:
+                kind, exported, ptr = c
+                mat[kind]["%s-%s" % ("exp" if exported else "unexp", "ptr" if ptr else "val")] += 1
         closure_bad = r.get("closure_bad") or []
         # --- tie: behaviour (the property) --------------------------------------------------------------
         op_ = progs.observe_js(r["runs"]["plain"])
@@ -951,8 +1114,8 @@ def run_batch(chk, jobs, meta, tier):
 
 def run(tier, seed):
     chk = C.Check("C05", tier, seed)
-    nprog = 70 if tier == "quick" else 1150
-    chk.rule = ("programs = random compositions (2-6 features each, seeded) of 21 feature generators that reach code only "
+    nprog = 60 if tier == "quick" else 1100
+    chk.rule = ("programs = random compositions (2-6 features each, seeded) of 22 feature generators that reach code only "
                 "through interfaces (exported/unexported/same-named methods), anonymous interfaces and assertions, method "
                 "values/expressions, embedding, generic functions/types/constraint methods, types nested in functions and "
                 "methods, side-effecting package variable initialisers, go:linkname (function and method forms), a second "
@@ -965,7 +1128,11 @@ def run(tier, seed):
                 "anonymous interface and concrete types, promotion through embedding, generic constraint, assertion, defer, go, "
                 "generic receivers) x exported/unexported x value/pointer receiver; in each cell that reference is the ONLY mention "
                 "of the method name in the program; all 76 cells are generated in every run (matrix programs, 6 cells each) and "
-                "again at random inside compositions; failing matrix programs are shrunk to single-cell programs"
+                "again at random inside compositions; failing matrix programs are shrunk to single-cell programs. PACKAGE-VARIABLE "
+                "MATRIX: multi-variable declarations (map/assertion/receive comma-ok, 2- and 3-result calls, parallel values) x "
+                "which variables are referenced (first/last/none/all) x from main / from another package's init / only through "
+                "another variable's initializer x pure/side-effecting initializer (144 cells), plus chains of single-variable "
+                "declarations (7 dependency forms x 3 reference sites); every cell in every run (12 cells per program)"
                 % (nprog, len(CORPUS)))
     chk.trusted = ["Lean 4.33 kernel; axioms per theorem listed (subset of propext, Classical.choice, Quot.sound)",
                    "hand-written model GV.Model.Dce of selector.go, tied on every run to the real dce.Selector via "
@@ -994,6 +1161,11 @@ def run(tier, seed):
             jobs.append({"id": "m%d-%s" % (seed, mod), "mod": mod, "files": files, "native": chk.rng.random() < 0.35, "timeout": 60})
             meta.append((files, feats, cells))
             nmatrix += 1
+    for rep in range(1 if tier == "quick" else 3):
+        for mod, files, feats, cells in var_matrix_programs(chk.rng, seed * 10 + rep):
+            jobs.append({"id": "v%d-%s" % (seed, mod), "mod": mod, "files": files, "native": chk.rng.random() < 0.35, "timeout": 60})
+            meta.append((files, feats, cells))
+            nmatrix += 1
     for i in range(nprog):
         mod = "gvp%dx%d" % (seed, i)
         files, feats, cells = gen_program(chk.rng, mod, force=FEATURES[i % len(FEATURES)][0] if i < 2 * len(FEATURES) else None)
@@ -1009,21 +1181,29 @@ def run(tier, seed):
         done = min(len(jobs), a + step)
         if time.time() - t0 > budget and done >= len(CORPUS) + nmatrix + 2 * len(FEATURES):
             break
-    failed_cells = sorted(chk.extra.pop("_failed_cells", set()))
+    failed_cells = sorted(chk.extra.pop("_failed_cells", set()), key=repr)
     if failed_cells:
         # shrink: every sole-reference cell of a failing program again, alone in its own program
         jobs1, meta1 = [], []
-        for n, (k, e, p_) in enumerate(failed_cells[:80]):
+        for n, c in enumerate(failed_cells[:120]):
             mod = "gvc%dx%d" % (seed, n)
             g = Gen(chk.rng, mod)
-            sole_cell(g, k, e, p_)
-            g.features.append("sole:%s:%s:%s" % (k, "exp" if e else "unexp", "ptr" if p_ else "val"))
+            if c[0] == "var":
+                var_cell(g, *c[1:])
+                g.features.append("var:" + ":".join(c[1:]))
+            elif c[0] == "chain":
+                chain_cell(g, *c[1:])
+                g.features.append("chain:" + ":".join(c[1:]))
+            else:
+                k, e, p_ = c
+                sole_cell(g, k, e, p_)
+                g.features.append("sole:%s:%s:%s" % (k, "exp" if e else "unexp", "ptr" if p_ else "val"))
             jobs1.append({"id": "c%d-%d" % (seed, n), "mod": mod, "files": g.build(), "native": False, "timeout": 60})
             meta1.append((jobs1[-1]["files"], g.features, []))
         before = len(chk.mismatches)
         run_batch(chk, jobs1, meta1, tier)
         chk.extra.pop("_failed_cells", None)
-        chk.extra["failing_sole_reference_cells"] = sorted(set(
+        chk.extra["failing_cells"] = sorted(set(
             json.loads(m["op"])["features"][0] for m in chk.mismatches[before:]))
         # smallest failing inputs first in the replay
         chk.mismatches = chk.mismatches[before:] + chk.mismatches[:before]
